@@ -64,6 +64,7 @@ opcodes! {
     SwapUnwrap = "swap_unwrap", "C11";
     SwapLoadFull = "swap_load_full", "C11";
     RefCntTrip = "refcnt_trip", "C11";
+    SwapExchange = "swap_exchange", "C11";
     MoveSlot = "move", "";
     // ---- inspect (a=slot[, b=slot])
     Read = "read", "";
@@ -150,7 +151,8 @@ pub struct Program {
     pub switch_pct: u32,
     pub pct_depth: u32,
     pub pct_steps: u32,
-    pub fault: Option<(Cb, u32)>,
+    /// callback panics to inject: (class, k-th invocation of that class in the run)
+    pub fault: Vec<(Cb, u32)>,
     pub choices: Choices,
     pub setup: Vec<Op>,
     pub par: Vec<Vec<Op>>,
@@ -179,9 +181,11 @@ impl Program {
             "sched stale={} switch={} pct={} steps={}\n",
             self.stale_pct, self.switch_pct, self.pct_depth, self.pct_steps
         ));
-        match self.fault {
-            None => s.push_str("fault none\n"),
-            Some((cb, k)) => s.push_str(&format!("fault {} {}\n", CB_NAMES[cb as usize], k)),
+        if self.fault.is_empty() {
+            s.push_str("fault none\n");
+        }
+        for (cb, k) in &self.fault {
+            s.push_str(&format!("fault {} {}\n", CB_NAMES[*cb as usize], k));
         }
         match &self.choices {
             Choices::Seed(x) => s.push_str(&format!("choices seed {}\n", x)),
@@ -223,7 +227,7 @@ impl Program {
             switch_pct: 0,
             pct_depth: 0,
             pct_steps: 60,
-            fault: None,
+            fault: Vec::new(),
             choices: Choices::List(vec![]),
             setup: vec![],
             par: vec![],
@@ -267,11 +271,11 @@ impl Program {
                 "fault" => {
                     let c = w.next().ok_or_else(|| err("bad fault"))?;
                     if c == "none" {
-                        p.fault = None;
+                        p.fault.clear();
                     } else {
                         let cb = cb_from_name(c).ok_or_else(|| err("unknown callback class"))?;
                         let k: u32 = w.next().and_then(|x| x.parse().ok()).ok_or_else(|| err("bad fault k"))?;
-                        p.fault = Some((cb, k));
+                        p.fault.push((cb, k));
                     }
                 }
                 "choices" => match w.next() {
